@@ -160,6 +160,20 @@ func TestC11Pairs(t *testing.T) {
 			limit := uint32(pick(rt, "passthrough/limit", []int{n, n, n + 10, 1000, n - 1}))
 			c.Prefix = append(c.Prefix, kit.Step{Admin: &kit.Admin{Kind: "update_params", MaxPassthrough: limit}})
 		}
+		crossed := ""
+		if kit.Chance(rt, "crossed-token", 10) {
+			// a Hyperlane route naming the collateral token of another denomination, with that
+			// denomination sitting on the orbiter account: it must not pay for the transfer
+			c.Transfer.Route, crossed = kit.CrossedTokenRoute(rt, w, "crossed", c.Transfer.Denom)
+			c.Transfer.Amount = fmt.Sprint(1 + rapid.IntRange(0, 999).Draw(rt, "crossed/amount"))
+			c.Transfer.Actions = nil
+			who, amount := pick(rt, "crossed/user", kit.PlainUsers), "1000000"
+			if crossed == world.Uhuge {
+				who = "whale"
+			}
+			c.Deposits = append(c.Deposits, kit.Env{Kind: "deposit", User: who, Denom: crossed, Amount: amount})
+			rec.Label("c11", "route names another denomination's collateral token, that denomination pre-exists")
+		}
 		n := 1 + rapid.IntRange(0, 3).Draw(rt, "deposits/n")
 		for i := 0; i < n; i++ {
 			d := kit.Env{Kind: "deposit", User: pick(rt, fmt.Sprintf("dep/%d/user", i), kit.PlainUsers)}
